@@ -24,6 +24,7 @@ use vh_common::serde_json::{Value, json};
 use vh_common::{Args, ModelProc, Report, Rng};
 use world::World;
 
+
 pub const SCORE_EPS: f64 = 1e-9;
 
 /// What one evaluated case contributes to the report.
@@ -230,6 +231,24 @@ fn check_case(world: &mut World, model: &mut Option<ModelProc>, lines: &[String]
     }
     if out.sample.is_none() {
         out.sample = Some(json!({"ops": lines, "impl": imp}));
+    }
+    // ---- the evaluation instant is an instant, not a text ------------------------------------
+    // route `kml-spell`: the same history, `FOR TIME` written in every other spelling of the same
+    // instants: every answer must be byte-identical
+    if route_kml && lines.first().is_some_and(|l| l == "route kml-spell") {
+        for k in 0..ops::SPELLINGS {
+            let variant: Vec<Op> = parsed.iter().map(|o| if let Op::Spell(_) = o { Op::Spell(k) } else { o.clone() }).collect();
+            if variant == parsed { continue }
+            out.impl_runs += 1;
+            let outs = world.run_kml(&variant);
+            out.hits.push(format!("derived:spelling:{k}"));
+            for (j, (b, g)) in imp.iter().zip(outs.iter()).enumerate() {
+                if b != g {
+                    fail(&mut out, "evaluation-instant-text-dependent", format!("the answer depends on how the evaluation instant is spelled (spelling {k} of the same instant) at op #{j} `{}`", lines[j]), b.clone(), g.clone());
+                    break;
+                }
+            }
+        }
     }
     if !deep || route_kml {
         return out;
@@ -686,6 +705,28 @@ fn main() {
                 let mut rng = Rng::for_case(args.seed ^ 0x6b6d6c, i);
                 let lines = ops::random_kml_case(&mut rng);
                 send(format!("kml:{i}"), lines, true, false);
+            }
+            // 5. the evaluation instant in equivalent spellings (route kml-spell), and time::normalize itself
+            let n_spell = args.extra.get("spell").and_then(|s| s.parse().ok()).unwrap_or(if args.focus.is_some() { 400 } else { args.budget(60, 500) });
+            for i in 0..n_spell {
+                let mut rng = Rng::for_case(args.seed ^ 0x7370656c, i);
+                let lines = ops::random_kml_spell_case(&mut rng);
+                send(format!("spell:{i}"), lines, true, false);
+            }
+            for i in 0..args.budget(40, 400) {
+                let mut rng = Rng::for_case(args.seed ^ 0x6e6f726d, i);
+                let mut lines = Vec::new();
+                for _ in 0..12 {
+                    let ms = world::SPELL_BASE_MS + rng.range(-400_000_000_000, 400_000_000_000);
+                    let ms = if rng.chance(1, 2) { ms - ms.rem_euclid(1000) + *rng.pick(&[0, 250, 500, 999]) } else { ms };
+                    let mut text = world::spell_instant(ms, rng.below(ops::SPELLINGS as u64) as u32);
+                    if rng.chance(1, 6) {
+                        // malformed: both sides must refuse
+                        text = match rng.below(5) { 0 => text.replace(':', ""), 1 => text.trim_end_matches(|c| c == 'Z' || c == 'z').to_string() + "", 2 => text.replacen("-06-", "-13-", 1).replacen("-0", "-1", 0), 3 => format!("{}x", text), _ => text.replacen('T', "_", 1) };
+                    }
+                    lines.push(format!("norm {text}"));
+                }
+                send(format!("norm:{i}"), lines, false, false);
             }
         }
         n_jobs
